@@ -200,6 +200,11 @@ fn walk(mode: Mode, text: &mut String, last_is_nl: bool, depth_left: usize, sigm
         return;
     }
     if deadline.expired() {
+        // the subtree below this node is not walked: say so (the run is then not exhaustive to its depth)
+        let msg = "wall cap hit inside the token tree: some subtrees were not walked to the stated depth".to_string();
+        if !st.caps.contains(&msg) {
+            st.caps.push(msg);
+        }
         return;
     }
     let len = text.len();
@@ -352,7 +357,9 @@ pub fn beyond_small_scope() -> Vec<String> {
 
 pub fn run(mode: Mode, tier: Tier, seed: u64) -> i32 {
     let started = Instant::now();
-    let deadline = Deadline::new(tier.wall_cap());
+    // the thorough tier of these two checks walks the token tree one level deeper than the others
+    // enumerate: 40 minutes instead of 20
+    let deadline = Deadline::new(if tier == Tier::Thorough { std::time::Duration::from_secs(40 * 60) } else { tier.wall_cap() });
     let id: &'static str = if mode == Mode::C09 { "C09" } else { "C12" };
     let mut total = Stats::default();
 
@@ -526,8 +533,8 @@ pub fn run(mode: Mode, tier: Tier, seed: u64) -> i32 {
     let headers: Vec<(&str, usize, usize)> = match tier {
         // (header, depth below the empty body, depth below each seed)
         Tier::Quick => vec![("A B", 7, 5), ("A", 6, 4), ("A B Q", 6, 4)],
-        // the last entry is an attempt one level deeper under the remaining wall time: if the cap
-        // stops it, the run reports the cap and is exhaustive only to the depths above
+        // the last entry goes one level deeper below the empty body: if the wall cap stops it, the run
+        // reports the cap (caps_hit) and is exhaustive only to the depths above
         Tier::Thorough => vec![("A B", 8, 6), ("A", 7, 5), ("A B Q", 7, 5), ("A B", 9, 0)],
     };
     for (hdr, depth0, depth_seed) in &headers {
